@@ -285,6 +285,7 @@ pub fn batch_json(ctx: &Ctx, scenario: &str, b: &Batch, extra: Vec<(&str, String
         ("ops_by_kind", map_u64(&b.cov.ops)),
         ("value_len_classes", map_u64(&b.cov.vlen_classes)),
         ("key_len_classes", map_u64(&b.cov.klen)),
+        ("bulk_batch_sizes", map_u64(&b.cov.batch)),
         ("byte_compares", b.cov.cmps.to_string()),
         ("get_hits", b.cov.found_hits.to_string()),
         ("overwrites", b.cov.overwrite.to_string()),
